@@ -22,6 +22,13 @@ pub const FOR_FIELDS: &[&str] = &["index", "index0", "rindex", "rindex0", "first
 pub const TR_FIELDS: &[&str] =
     &["index", "index0", "rindex", "rindex0", "first", "last", "length", "col", "col0", "col_first", "col_last"];
 
+fn on(v: &Option<i64>) -> String {
+    match v {
+        Some(i) => i.to_string(),
+        None => "_".into(),
+    }
+}
+
 fn opt_lit(v: Option<i64>) -> Option<Expr> {
     v.map(lit_i)
 }
@@ -35,12 +42,13 @@ fn arr_data(n: usize) -> Object {
     single.insert("k".into(), Value::scalar("v"));
     o.insert("o1".into(), Value::Object(single));
     o.insert("s".into(), Value::scalar("str"));
+    o.insert("z".into(), Value::Nil);
     o
 }
 
 fn case(ctx: &mut Ctx, parser: &liquid::Parser, kind: &str, t: Vec<Node>, data: &Object) {
     let obs = render_text(parser, &src_tmpl(&t), data);
-    ctx.emit(render_case("render", kind, &t, data, &[], &obs));
+    ctx.emit(render_case("c05", kind, &t, data, &[], &obs));
 }
 
 pub fn run(ctx: &mut Ctx) {
@@ -63,7 +71,7 @@ pub fn run(ctx: &mut Ctx) {
                         body,
                         els: Some(vec![text("EMPTY")]),
                     }];
-                    case(ctx, &parser, "for-array", t, &data);
+                    case(ctx, &parser, &format!("for-array:{}:{}:{}", on(off), on(lim), rev as u8), t, &data);
                 }
                 // range with literal and variable bounds (3 ..= 2+n has n elements)
                 let body = fields_body("forloop", FOR_FIELDS, "x");
@@ -76,7 +84,7 @@ pub fn run(ctx: &mut Ctx) {
                     body,
                     els: Some(vec![text("EMPTY")]),
                 }];
-                case(ctx, &parser, "for-range", t, &data);
+                case(ctx, &parser, &format!("for-range:{}:{}:{}:3:{}", on(off), on(lim), (n % 2 == 1) as u8, 2 + n as i64), t, &data);
                 for cols in [None, Some(1), Some(2), Some(3), Some(4)] {
                     let body = fields_body("tablerow", TR_FIELDS, "x");
                     let t = vec![Node::TableRow {
@@ -87,7 +95,7 @@ pub fn run(ctx: &mut Ctx) {
                         offset: opt_lit(*off),
                         body,
                     }];
-                    case(ctx, &parser, "tablerow", t, &data);
+                    case(ctx, &parser, &format!("tablerow:{}:{}:{}", on(off), on(lim), on(&cols)), t, &data);
                 }
             }
         }
@@ -96,7 +104,7 @@ pub fn run(ctx: &mut Ctx) {
     let data = arr_data(3);
     for (name, rng) in [
         ("obj", RangeE::Arr(var("o1"))),
-        ("nil", RangeE::Arr(var("a").clone()).clone()),
+        ("nil", RangeE::Arr(var("z"))),
         ("desc", RangeE::Counted(lit_i(5), lit_i(2))),
         ("same", RangeE::Counted(lit_i(4), lit_i(4))),
         ("neg", RangeE::Counted(lit_i(-2), lit_i(1))),
@@ -167,7 +175,7 @@ pub fn run(ctx: &mut Ctx) {
                             body: vec![text("<"), out(var("x")), inner, guard("forloop", at_outer, ko), text(">")],
                             els: None,
                         }];
-                        case(ctx, &parser, "nested", t, &data);
+                        case(ctx, &parser, &format!("nested:{}:{}:{}:{}", at_outer, at_inner, ko, ki), t, &data);
                     }
                 }
             }
@@ -191,18 +199,28 @@ pub fn run(ctx: &mut Ctx) {
                 offset: opt_lit(off),
                 body: fields_body("tablerow", TR_FIELDS, "x"),
             }];
-            case(ctx, &parser, "rand-tablerow", t, &data);
+            let k = if off.unwrap_or(0) >= 0 && lim.unwrap_or(0) >= 0 { format!("tablerow:{}:{}:{}", on(&off), on(&lim), on(&cols)) } else { "rand-tablerow-neg".into() };
+            case(ctx, &parser, &k, t, &data);
         } else {
+            let use_arr = rng.chance(1, 2);
+            let rev = rng.chance(1, 2);
             let t = vec![Node::For {
                 x: "x".into(),
-                rng: if rng.chance(1, 2) { RangeE::Arr(var("a")) } else { RangeE::Counted(var("lo"), var("hi")) },
+                rng: if use_arr { RangeE::Arr(var("a")) } else { RangeE::Counted(var("lo"), var("hi")) },
                 limit: opt_lit(lim),
                 offset: opt_lit(off),
-                rev: rng.chance(1, 2),
+                rev,
                 body: fields_body("forloop", FOR_FIELDS, "x"),
                 els: Some(vec![text("EMPTY")]),
             }];
-            case(ctx, &parser, "rand-for", t, &data);
+            let k = if off.unwrap_or(0) < 0 || lim.unwrap_or(0) < 0 {
+                "rand-for-neg".to_string()
+            } else if use_arr {
+                format!("for-array:{}:{}:{}", on(&off), on(&lim), rev as u8)
+            } else {
+                format!("for-range:{}:{}:{}:3:{}", on(&off), on(&lim), rev as u8, 2 + n as i64)
+            };
+            case(ctx, &parser, &k, t, &data);
         }
     }
 }
